@@ -20,7 +20,7 @@ from ..pointsto import GRAD, PARAM, STATE_ROOT
 from .c01 import _step_counter
 from .c06 import _norm
 from .c16 import leafless_not_required
-from .common import CKPT_MOD, DS, ENTRY_POINTS, callgraph_dominated, loop_var_leak, short
+from .common import CKPT_MOD, DS, ENTRY_POINTS, callgraph_dominated, loop_var_leak, per_group_fresh, short
 
 OM = "optimizer_modules:OptimizerModule"
 
@@ -47,6 +47,9 @@ DERIVED_CACHES = {
     "self._bias_correction2": "recomputed from the (checkpointed) step counter in update_preconditioners before every use",
     "self._local_failed_amortized_computation_counter_list[]": "consecutive-failure counter: affects behaviour only under fault sequences, outside C09's quantifier (recorded as an assumption)",
 }
+
+
+INSTANTIATORS = ("_instantiate_distributor", "_instantiate_shampoo_preconditioner_list", "_instantiate_grafting", "_instantiate_steps", "_instantiate_momentum", "_instantiate_filtered_grads")
 
 
 def persistence(ctx, rep, rule: str) -> None:
@@ -142,6 +145,68 @@ def allocations_stored(ctx, rep, rule: str) -> None:
                 missing = [t for t in ts if t not in kinds]
                 rep.ob(rule, f"allocated-state-is-stored:{short(fi.qual)}:{_norm(A.keyword(c, 'size'))[:30]}", not missing, fi.loc(c), f"tensors allocated by `{_norm(c)[:70]}` must be reachable from self.state (saved kinds: {sorted(set().union(*[kinds.get(t, set()) for t in ts]))})", sample=(n % 3 == 0))
     rep.floor(rule, "allocate_zeros_tensor call sites", n, 6)
+
+
+def working_copies_alias_state(ctx, rep, rule: str) -> None:
+    """The tensors the step path works on (per-block Kronecker factor lists, Adagrad accumulators, momentum / filtered
+    gradient lists) must BE the tensors under self.state, not possibly-copied derivations of them (`.to(...)`, `.float()`,
+    `.contiguous()`, `.reshape(...)`, `.clone()` may or do copy): a copy is updated by the steps while the checkpoint keeps
+    saving the untouched original."""
+    repo = ctx.repo
+    pts = ctx.engine("pts")
+    kinds = pts.state_kinds()
+    by_obj: dict = {}
+    for (o, f), vals in pts.heap.items():
+        by_obj.setdefault(o, []).append((f, vals))
+
+    def deep(vals):
+        out, seen, st = set(), set(), list(vals)
+        while st:
+            o = st.pop()
+            if o in seen:
+                continue
+            seen.add(o)
+            if o[0] == "T":
+                out.add(o)
+            elif o[0] in ("C", "O"):
+                for _, vs in by_obj.get(o, []):
+                    st.extend(vs)
+        return out
+
+    def site(t):
+        return str(t[1][0]) if isinstance(t[1], tuple) else str(t[1])
+
+    def owner_name(t):
+        loc = site(t).split(":")
+        for fi in repo.funcs.values():
+            if fi.relpath == loc[0] and getattr(fi.node, "lineno", 0) <= int(loc[1]) <= (getattr(fi.node, "end_lineno", 0) or 0):
+                if not any(g is not fi and g.relpath == loc[0] and fi.node.lineno < g.node.lineno and (g.node.end_lineno or 0) >= int(loc[1]) >= g.node.lineno for g in repo.funcs.values()):
+                    return fi.name
+        return "?"
+
+    PL = "distributed_shampoo.utils.shampoo_preconditioner_list:"
+    targets = [(PL + "ShampooPreconditionerList", "_local_kronecker_factors_list"), (PL + "EigenvalueCorrectedShampooPreconditionerList", "_local_kronecker_factors_list"), (PL + "AdagradPreconditionerList", "_local_preconditioner_list")]
+    n = 0
+    for cq, attr in targets:
+        ts = deep(pts.attr(cq, attr))
+        # the per-factor diagonal flags default to fresh `torch.tensor(True)` in the dataclass's __post_init__ when the given tuple is empty
+        foreign = sorted({site(t) for t in ts if t not in kinds and owner_name(t) != "__post_init__"})
+        n += len(ts)
+        rep.ob(rule, f"working-copies-are-state:{cq.split(':')[1]}.{attr}", bool(ts) and not foreign, repo.cls(cq).module.relpath, f"{len(ts)} tensor(s) reachable from `{attr}`: all must be tensors stored under self.state" + (f"; also reachable: tensor(s) created at {foreign[:3]} — a possibly-copying conversion (`.to` / `.float` / `.reshape` / `.clone` ...) of the stored tensor; the steps would update the copy, the checkpoint the original" if foreign else ""), sample=True)
+    # momentum / filtered-gradient lists of the optimizer
+    for fname, key in (("_instantiate_momentum", "momentum_list"), ("_instantiate_filtered_grads", "filtered_grad_list")):
+        fi = repo.method(DS, fname)
+        vals = set()
+        for node in A.walk_no_nested(fi.node):
+            if isinstance(node, ast.Assign) and isinstance(node.targets[0], ast.Subscript):
+                nm, k = A.subscript_key(repo, fi.module, node.targets[0])
+                if k == key:
+                    vals |= set(pts.expr(fi.qual, node.value))
+        ts = deep(vals)
+        foreign = sorted({site(t) for t in ts if t not in kinds})
+        n += len(ts)
+        rep.ob(rule, f"working-copies-are-state:state_lists[{key}]", bool(ts) and not foreign, fi.loc(), f"{len(ts)} tensor(s) in state_lists[{key}]: all must be tensors stored under self.state" + (f"; also: {foreign[:3]}" if foreign else ""), sample=True)
+    rep.floor(rule, "working tensors examined", n, 20)
 
 
 def load_strictness(ctx, rep, rule: str) -> None:
@@ -243,6 +308,18 @@ def group_fields(ctx, rep, rule: str) -> None:
     comps = [n for n in ast.walk(sd.node) if isinstance(n, ast.DictComp) and "self.state.items()" in _norm(n)]
     ok = len(comps) == 1 and _norm(comps[0].value) == "flatten(extract_state_dict_content(param_state))" and not comps[0].generators[0].ifs
     rep.ob(rule, "state-of-every-parameter-saved", ok, sd.loc(), "the saved state is flatten(extract_state_dict_content(state)) for every parameter in self.state, unfiltered", sample=True)
+    # writer and reader agree on what a default call saves / restores
+    def defaults(fi):
+        a = fi.node.args
+        names = [x.arg for x in a.args]
+        d = dict(zip(names[len(names) - len(a.defaults):], a.defaults))
+        d.update({k.arg: v for k, v in zip(a.kwonlyargs, a.kw_defaults) if v is not None})
+        return {k: (v.value if isinstance(v, ast.Constant) else _norm(v)) for k, v in d.items()}
+    dw, dr = defaults(sd), defaults(ld)
+    shared = sorted(set(dw) & set(dr))
+    bad = [k for k in shared if dw[k] != dr[k]]
+    ok = "save_param_groups" in shared and not bad and dr.get("save_param_groups") is True and dr.get("enable_missing_key_check", True) is True
+    rep.ob(rule, "writer-reader-defaults-agree", ok, ld.loc(), f"defaults of the save/load entry points: writer {dw}, reader {dr}: a default load must restore (and cross-check) what a default save wrote, strictly" + (f"; differing: {bad}" if bad else ""), sample=True)
     upd = [c for c in A.calls(ld.node) if A.callee_name(repo, ld.module, c).endswith("update_param_state_dict_object")]
     ok = len(upd) == 1 and _norm(upd[0].args[0]) == "self.state[param]" and _norm(upd[0].args[1]) == "unflatten(param_state)"
     rep.ob(rule, "state-loaded-in-place-from-unflattened", ok, ld.loc(upd[0]) if upd else ld.loc(), "load updates self.state[param] in place from unflatten(saved state)")
@@ -250,16 +327,18 @@ def group_fields(ctx, rep, rule: str) -> None:
 
 def run(ctx, rep) -> None:
     rep.rule("C09.1", "everything carried across steps is optimizer state or a listed derived cache; in-place writes on the step path hit saved state only")
-    rep.rule("C09.2", "every allocated state tensor is stored under self.state; the step counter is registered per group inside the group loop")
+    rep.rule("C09.2", "every allocated state tensor is stored under self.state, and the tensors the steps work on are those very tensors (no possibly-copying conversion in between); the step counter is registered per group inside the group loop")
     rep.rule("C09.3", "load path: missing keys raise, loops over the current state are not left early, silent skips are reported")
     rep.rule("C09.4", "leaf-less entries are dropped by the writer and not required by the reader")
     rep.rule("C09.5", "param-group key and saved/restored group fields")
     rep.attempt("persistence", persistence, ctx, rep, "C09.1")
     rep.attempt("allocations_stored", allocations_stored, ctx, rep, "C09.2")
+    rep.attempt("working_copies_alias_state", working_copies_alias_state, ctx, rep, "C09.2")
     from .c03 import _Proxy
 
     rep.attempt("_step_counter", _step_counter, ctx, _Proxy(rep, "C01.4", "C09.2"))
     rep.attempt("loop_var_leak", loop_var_leak, ctx, rep, "C09.2", [f"{DS}.{n}" for n in ("_instantiate_steps", "_instantiate_momentum", "_instantiate_filtered_grads")])
+    rep.attempt("per_group_fresh", per_group_fresh, ctx, rep, "C09.2", [f"{DS}.{n}" for n in INSTANTIATORS])
     rep.attempt("load_strictness", load_strictness, ctx, rep, "C09.3")
     rep.attempt("leafless_not_required", leafless_not_required, ctx, rep, "C09.4")
     rep.attempt("group_fields", group_fields, ctx, rep, "C09.5")
